@@ -49,7 +49,7 @@ def shadow_has_path(edges, a, b):
 def gen_bn_history(rng, tier):
     names = gen.node_names(rng, NVARS, rng.choice(["str", "word", "int", "int0"]))
     card = [rng.choice([2, 2, 3]) for _ in range(NVARS)]
-    labels = [gen.state_labels(rng, c, rng.choice(["int", "str", "permint"])) for c in card]
+    labels = [list(range(c)) for c in card]     # get_random_cpds always uses the default integer state names
     L = rng.randint(6, 25 if tier == "quick" else 80)
     worlds = [{"nodes": set(), "edges": set(), "cpds": {}}]
     ops = []
@@ -219,16 +219,22 @@ def run_bn_history(case, drv):
                         sc = [pn.index(x) for x in c.variables]
                         vals = [rs(Fraction(float(x))) for x in np.asarray(c.values).reshape(-1)]
                         st["cpds"].append({"scope": sc, "card": [card[x] for x in sc], "vals": vals})
-                    # default state names of get_random are ints; relabel comparison only if labels are default
-                    for c in bn.cpds:
-                        for x in c.variables:
-                            labels[pn.index(x)] = list(c.state_names[x])
             impl_out = "ok"
         except Exception as e:  # noqa
             impl_out = "err"
             impl_exc = f"{type(e).__name__}: {e}"
         if mop is not None:
             r = drv.call("bn_step", state=st, bnop=mop)
+            if k == "removeNode" and impl_out == "err" and r["out"] == "ok":
+                # a child's CPD that does not mention the node (CPD added before the edge): the library refuses; the
+                # property only demands that the refusal leaves the model unchanged
+                v = op["v"]
+                if any(f["scope"][0] != v and v not in f["scope"] and [v, f["scope"][0]] in [list(e) for e in st["edges"]]
+                       for f in st["cpds"]):
+                    if impl_snapshot(bn) != before[w]:
+                        return fail(f"step {step_i} removeNode: rejected operation ({impl_exc}) changed the model")
+                    n_err += 1
+                    continue
             if r["out"] != impl_out:
                 return fail(f"step {step_i} {k} {op}: impl {'accepted' if impl_out == 'ok' else 'rejected (' + impl_exc + ')'}, model {r['out']}")
             if impl_out == "err":
